@@ -105,6 +105,17 @@ claim("C07", "exploration",
       "on twin detectors.  Sampled.",
       TB + " numpy.histogram, scipy t-quantile and jensenshannon trusted.", "DESIGN.md 4 (C07)")
 
+claim("C11", "exploration",
+      "runtime monitoring: executable specification of PCA-CD (own windows, scaling, per-component supports, own Page-Hinkley) "
+      "stepped in lock-step; metamorphic periodic-stream monitor (identical windows must score 0)",
+      "Hundreds (thousands thorough) of multivariate streams with level / variance / correlation shifts over window_size, "
+      "ev_threshold, delta, both metrics, sample_period and online_scaling on/off; after every update drift_state, counters, "
+      "num_pcs and every change score are compared with the specification (several drifts and rebuilt references per stream); "
+      "periodic streams whose test window equals the reference window as a multiset must score exactly 0 with the intersection "
+      "metric.  Sampled.",
+      TB + " sklearn PCA/KDE/StandardScaler and scipy jensenshannon trusted; edge-prone histogram scores adopted (counted).",
+      "DESIGN.md 4 (C11)")
+
 NOT_YET = "check not built yet in this revision of /verif (planned: see DESIGN.md section 4); nothing is claimed for it"
 
 
